@@ -1,6 +1,7 @@
 """C19 tie + search: the segmenter's part arithmetic and the real Low-Latency Muxer vs Model/PartDur.v."""
 import json
 import os
+import re
 import vlib
 
 META = {
@@ -76,7 +77,6 @@ def run(ctx):
             raw = res.get("raw", "")
             for idx in res["bad"]:
                 codes = []
-                import re
                 m = re.search(r"\(%d(?:%%nat)?\s*,\s*\[([^\]]*)\]" % idx, raw)
                 if m:
                     codes = [int(x) for x in re.findall(r"\d+", m.group(1))]
@@ -84,5 +84,13 @@ def run(ctx):
                 t.mismatches.append({"observable": obsv, "input": _case_input(res["shard"], idx),
                                      "detail": raw[:500]})
         t.mismatches.sort(key=lambda m: len(json.dumps(m["input"])))
-    # the idx files are only needed to name a mismatching input
+        # disk is limited: the shards (tens of MB in the thorough tier) are only needed to name a
+        # mismatching input; keep result.json
+        if not t.mismatches and not t.errors:
+            import glob
+            for f in glob.glob(os.path.join(out, "cases_*")):
+                try:
+                    os.remove(f)
+                except OSError:
+                    pass
     return t
